@@ -75,6 +75,7 @@ type asyncSys struct {
 	stop       func()
 	capacity   int
 	err        error
+	gateOpen   bool // gates may be opened although the scenario says "held" (final drain)
 }
 
 var idInLine = regexp.MustCompile(`id[=":]+"?(t\d+s\d+)`)
@@ -248,7 +249,7 @@ func (sys *asyncSys) submit(task, seq int, op AOp, reuse *[]byte) *Sub {
 func (sys *asyncSys) gateEnvs(x *Exec, whenStuck bool) {
 	for i, r := range sys.recs {
 		x.Sim.AddEnv(&verifsim.EnvAction{Name: fmt.Sprintf("gate%d", i), WhenStuck: whenStuck,
-			Enabled: func() bool { return sys.s.Gate == 1 && r.CanOpen() },
+			Enabled: func() bool { return (sys.s.Gate == 1 || sys.gateOpen) && r.CanOpen() },
 			Run:     func() { r.Open(); x.Sim.Probe("gate_opened") }})
 	}
 }
